@@ -94,8 +94,8 @@ func subFor(op, text string) (*subState, bool) {
 // the fields it looks at are absent or of the type the operator is made for - what a condition does with a value of
 // another type is not a matter of this property.
 var knownClauses = map[string]func(map[string]any) (bool, bool){
-	"where N > 0":                  func(o map[string]any) (bool, bool) { n, ok, sure := intField(o, "N"); return ok && n > 0, sure },
-	"where not N > 3":              func(o map[string]any) (bool, bool) { n, ok, sure := intField(o, "N"); return !(ok && n > 3), sure },
+	"where N > 0":     func(o map[string]any) (bool, bool) { n, ok, sure := intField(o, "N"); return ok && n > 0, sure },
+	"where not N > 3": func(o map[string]any) (bool, bool) { n, ok, sure := intField(o, "N"); return !(ok && n > 3), sure },
 	"where not N > 3 and B is true": func(o map[string]any) (bool, bool) {
 		n, ok, sure := intField(o, "N")
 		b, bok, bsure := boolField(o, "B")
